@@ -367,7 +367,7 @@ class Interp:
 
 
 def keywords(rules):
-    """hard keywords as the generator registers them: alphabetic single-quoted literals outside &&"""
+    """hard keywords: every alphabetic single-quoted literal of the grammar, also one that only occurs as a forced token"""
     kw = set()
 
     def walk(it):
@@ -375,7 +375,7 @@ def keywords(rules):
         if t is Lit:
             if it.s.isalpha() and not it.soft:
                 kw.add(it.s)
-        elif t in (Opt, Star, Plus, PosLA, NegLA):
+        elif t in (Opt, Star, Plus, PosLA, NegLA, Forced):
             walk(it.item)
         elif t is Gather:
             walk(it.sep)
